@@ -145,7 +145,8 @@ class _Stmts:
             cond = self.parens()
             body = self.stmt()
             if self.peek() == "else":
-                _fail("'else' is outside the translated subset")
+                self.take()
+                return [("if", cond, body, self.stmt())]
             return [("if", cond, body)]
         if x == "for":
             self.take()
@@ -346,6 +347,11 @@ def translate_more_core(repo):
                 elif "_pagesize" in toks and "=" in toks and seen_relevant:
                     _fail("_pagesize assigned after it was used")
             elif s[0] == "if":
+                if len(s) == 4:
+                    if _mentions(s, RELEVANT + ("mmap", "_pagesize")) or any(
+                            _mentions(x, RELEVANT + ("mmap", "_pagesize")) for x in s[3]):
+                        _fail("'else' about the allocation arithmetic is outside the translated subset")
+                    continue
                 if not _mentions(s, RELEVANT + ("mmap",)):
                     if seen_relevant and _mentions(s, ("_pagesize",)) and any(
                             x[0] == "expr" and "=" in x[1] and "_pagesize" in x[1] for x in s[2]):
